@@ -301,6 +301,13 @@ def replay_direct(data):
     return 0
 
 
+def _twin_sub_reversed():
+    Vector.__sub__ = lambda self, other: Vector([y - x for x, y in zip(self, other)])
+
+
+TWINS = {'Vector subtraction reversed': (r'^ops/unbounded$', _twin_sub_reversed)}
+
+
 META = dict(
     title='vector algebra',
     level_text=('Symbolic execution of the real Vector/Point code with all 6-7 coordinates as unbounded real solver variables: z3 proves that '
